@@ -90,7 +90,7 @@ Qed.
 
 Lemma detach_spec : forall u c, wf c -> wf (detach u c) /\ abs (detach u c) = abs c.
 Proof.
-  intros u c Hc. unfold detach. destruct u; [split; [assumption|reflexivity]|].
+  intros u c Hc. unfold detach. destruct (u && (cstart c =? 0)); [split; [assumption|reflexivity]|].
   destruct (clen c =? 0) eqn:E.
   - split.
     + apply wf_mk; [lia|cbn [length]; lia|constructor].
